@@ -2,8 +2,9 @@
    (partial: the BGZF framing layer is modelled and proved; everything above it is compared
    sync-vs-async on the implementation, see checks/C16.json).
 
-   Model: NV.Async.Framing -- BlockCodec::decode / decode_eof driven by FramedRead over a source
-   that delivers the file in arbitrary chunks (= an arbitrary poll script), the sync reader's
+   Model: NV.Async.Framing -- BlockCodec::decode / decode_eof (with the minimum frame size check
+   and the end-of-input rule of the repaired codec) driven by FramedRead over a source that
+   delivers the file in arbitrary chunks (= an arbitrary poll script), the sync reader's
    read_frame_into loop, parse_block up to the inflate call, and the block transcript
    (compressed offset and data length of every non-empty block, final position, ending) that a
    caller observes through fill_buf / consume / virtual_position / position. *)
@@ -11,11 +12,26 @@ From Coq Require Import List Arith NArith Bool.
 From NV Require Import Async.Framing Async.FramingProofs.
 Import ListNotations.
 
-(* For EVERY partition of the file into chunks (every poll script of the AsyncRead source:
-   arbitrary transfer sizes; Pending polls transfer nothing and leave the state unchanged) the
-   frames the async codec yields are those of the flat file. *)
+(* FULL STATEMENT for the framing layer, for EVERY byte string (well-formed or not) and EVERY
+   partition of it into chunks (every poll script of the AsyncRead source: arbitrary transfer
+   sizes; Pending polls transfer nothing and leave the state unchanged): the async frame stream
+   -- the frames AND the way it ends (clean end, InvalidData, UnexpectedEof) -- is exactly the
+   sync reader's. *)
+Theorem c16_async_framing_equals_sync :
+  forall chunks, async_frames chunks = sync_all (concat chunks).
+Proof. exact async_framing_equals_sync. Qed.
+Print Assumptions c16_async_framing_equals_sync.
+
+(* hence the block transcripts are equal, for every inflate oracle *)
+Theorem c16_async_obs_equals_sync_obs :
+  forall inflate_ok file chunks, concat chunks = file ->
+    async_obs inflate_ok chunks = sync_obs inflate_ok file.
+Proof. exact async_obs_equals_sync_obs. Qed.
+Print Assumptions c16_async_obs_equals_sync_obs.
+
+(* and nothing depends on the poll script *)
 Theorem c16_async_frames_poll_indep :
-  forall chunks, async_frames chunks = flat_frames (concat chunks).
+  forall c1 c2, concat c1 = concat c2 -> async_frames c1 = async_frames c2.
 Proof. exact async_frames_poll_indep. Qed.
 Print Assumptions c16_async_frames_poll_indep.
 
@@ -29,89 +45,52 @@ Theorem c16_chunks_of_is_partition : forall sizes file, concat (chunks_of sizes 
 Proof. exact chunks_of_concat. Qed.
 Print Assumptions c16_chunks_of_is_partition.
 
-(* The framing loses and invents nothing *)
-Theorem c16_async_frames_concat : forall file, concat (flat_frames file) = file.
-Proof. exact flat_frames_concat. Qed.
-Print Assumptions c16_async_frames_concat.
-
-(* FULL STATEMENT of "async framing = sync framing": false for the pinned code (see the three
-   _refuted witnesses below); kept visible. *)
-Definition c16_async_framing_equals_sync_full_statement : Prop :=
-  forall inflate_ok file chunks, concat chunks = file ->
-    async_obs inflate_ok chunks = sync_obs inflate_ok file.
-
-(* Complete classification of the relation between the two framings, for ALL files: the async
-   frames start with the sync frames; the rest is empty or one of exactly three shapes, decided by
-   how the sync framing stopped. *)
-Theorem c16_sync_vs_async_framing :
+(* the frames are a prefix of the input (nothing is invented), and a clean end leaves fewer than
+   18 bytes unread *)
+Theorem c16_frames_are_a_prefix :
   forall file fs e, sync_all file = (fs, e) ->
-  exists rest, flat_frames file = fs ++ rest /\
-    match e with
-    | Eof => rest = [] \/ exists s, rest = [s] /\ 0 < length s < HDR
-    | Err InvalidData => exists s rest', rest = s :: rest' /\ 0 < length s < MIN_FRAME
-    | Err UnexpectedEof => exists s, rest = [s] /\ HDR <= length s < block_size s
-    end.
-Proof. exact sync_vs_async_framing. Qed.
-Print Assumptions c16_sync_vs_async_framing.
+    exists rest, file = concat fs ++ rest /\ (e = Eof -> length rest < HDR).
+Proof. exact sync_all_prefix. Qed.
+Print Assumptions c16_frames_are_a_prefix.
 
-(* PARTIAL positive theorem (known class excluded): whenever the sync framing consumes the whole
-   file -- i.e. the file is NOT of the known class "ends in 1..17 stray bytes / contains a frame
-   with BSIZE+1 < 26 / ends inside a frame" -- it ends cleanly and, for every poll script and
-   every inflate oracle, the async reader's block transcript equals the sync reader's. *)
-Theorem c16_async_framing_equals_sync_partial :
-  forall inflate_ok file chunks fs e,
-    concat chunks = file -> sync_all file = (fs, e) -> concat fs = file ->
-    e = Eof /\ async_frames chunks = fs /\ async_obs inflate_ok chunks = sync_obs inflate_ok file.
-Proof.
-  intros io file chunks fs e Hc Hs Hall.
-  destruct (async_framing_equals_sync_consumed file chunks fs e Hc Hs Hall) as [He Ha].
-  split; [exact He|]. split; [exact Ha|].
-  exact (async_obs_equals_sync_obs io file chunks fs e Hc Hs Hall).
-Qed.
-Print Assumptions c16_async_framing_equals_sync_partial.
-
-(* the same for files given as a list of well-formed frames (>= 26 bytes, BSIZE+1 = length) *)
-Theorem c16_async_framing_equals_sync_wf :
+(* files made of well-formed frames (>= 26 bytes, BSIZE+1 = length): exactly those frames, clean end *)
+Theorem c16_async_frames_wf :
   forall frs chunks, Forall wf_frame frs -> concat chunks = concat frs ->
-    async_frames chunks = frs /\ sync_all (concat chunks) = (frs, Eof).
-Proof. exact async_framing_equals_sync_wf. Qed.
-Print Assumptions c16_async_framing_equals_sync_wf.
+    async_frames chunks = (frs, Eof).
+Proof. exact async_frames_wf. Qed.
+Print Assumptions c16_async_frames_wf.
 
-(* The known class is not empty and the full statement fails on it: candidate finding F16. *)
-Theorem c16_trailing_partial_frame_refuted :
-  exists file, sync_obs all_ok file = ([], 28%N, Eof) /\
-               async_obs all_ok [file] = ([], 28%N, Err UnexpectedEof).
-Proof. exact async_equals_sync_trailing_partial_refuted. Qed.
-Print Assumptions c16_trailing_partial_frame_refuted.
+(* The three input classes of candidate finding F16, on which the two readers differed before the
+   async codec was repaired (trailing 1..17 bytes; BSIZE+1 < 26; file cut inside a frame): the
+   model of the repaired codec agrees with the sync reader on the old witnesses. *)
+Theorem c16_trailing_partial_frame_now_equal :
+  let file := (eof_block ++ [31; 139])%N in
+  sync_obs all_ok file = ([], 28%N, Eof) /\ async_obs all_ok [file] = ([], 28%N, Eof).
+Proof. exact trailing_partial_frame_example. Qed.
+Print Assumptions c16_trailing_partial_frame_now_equal.
 
-Theorem c16_undersized_bsize_refuted :
-  exists file, sync_obs all_ok file = ([], 0%N, Err InvalidData) /\
-               async_obs all_ok [file] = ([], 0%N, Err UnexpectedEof).
-Proof. exact async_equals_sync_undersized_bsize_refuted. Qed.
-Print Assumptions c16_undersized_bsize_refuted.
+Theorem c16_undersized_bsize_now_equal :
+  let file := (firstn 16 eof_block ++ [17; 0; 237; 242])%N in
+  sync_obs all_ok file = ([], 0%N, Err InvalidData) /\
+  async_obs all_ok [file] = ([], 0%N, Err InvalidData).
+Proof. exact undersized_bsize_example. Qed.
+Print Assumptions c16_undersized_bsize_now_equal.
 
-Theorem c16_truncated_frame_refuted :
-  exists file, sync_obs all_ok file = ([], 0%N, Err UnexpectedEof) /\
-               async_obs all_ok [file] = ([], 0%N, Err InvalidData).
-Proof. exact async_equals_sync_truncated_frame_refuted. Qed.
-Print Assumptions c16_truncated_frame_refuted.
+Theorem c16_truncated_frame_now_equal :
+  let file := (eof_block ++ firstn 16 eof_block ++ [40; 0; 1; 2; 3; 4; 5; 6; 7; 8; 255; 255; 255; 255])%N in
+  sync_obs all_ok file = ([], 28%N, Err UnexpectedEof) /\
+  async_obs all_ok [firstn 40 file; skipn 40 file] = ([], 28%N, Err UnexpectedEof).
+Proof. exact truncated_frame_example. Qed.
+Print Assumptions c16_truncated_frame_now_equal.
 
-Theorem c16_full_statement_refuted : ~ c16_async_framing_equals_sync_full_statement.
-Proof.
-  intros H. destruct async_equals_sync_trailing_partial_refuted as (file & Hs & Ha).
-  specialize (H all_ok file [file]). cbn [concat] in H. rewrite app_nil_r in H.
-  specialize (H eq_refl). rewrite Hs, Ha in H. discriminate.
-Qed.
-Print Assumptions c16_full_statement_refuted.
-
-(* non-vacuity: a two-block file (the EOF marker twice) satisfies the premises of the partial
-   theorem, is cut into three chunks that split both headers, and both sides see two frames *)
+(* non-vacuity: a two-block file (the EOF marker twice) cut into three chunks that split both
+   headers: both sides see two frames and a clean end *)
 Example c16_example :
   let file := eof_block ++ eof_block in
   let chunks := [firstn 5 file; firstn 30 (skipn 5 file); skipn 35 file] in
   concat chunks = file /\ sync_all file = ([eof_block; eof_block], Eof) /\
-  concat [eof_block; eof_block] = file /\ Forall wf_frame [eof_block; eof_block] /\
-  async_frames chunks = [eof_block; eof_block].
+  Forall wf_frame [eof_block; eof_block] /\
+  async_frames chunks = ([eof_block; eof_block], Eof).
 Proof.
   vm_compute. repeat split; try reflexivity.
   repeat constructor.
